@@ -351,7 +351,11 @@ fn check_http(r: &mut Report, thorough: bool) {
                 let got = dh(&inst, sig);
                 r.exec(1);
                 if got != Some(0) {
-                    r.dev("C12/http-header-instance-not-distance-0", "http-header-instance", || json!({"kind": "http-header", "observed": hl(&inst), "signature": hl(sig), "expected": 0, "actual": got}));
+                    // a signature that lists an optional header and later a header of the same name is ambiguous for a
+                    // one-pass walk (recorded finding); every other instance failure is a different violation
+                    let ambiguous = (0..sig.len()).any(|i| sig[i].optional && sig[i + 1..].iter().any(|h| h.name == sig[i].name));
+                    let key = if ambiguous { "C12/http-header-instance-not-distance-0/optional-header-before-a-same-named-header" } else { "C12/http-header-instance-not-distance-0" };
+                    r.dev(key, "http-header-instance", || json!({"kind": "http-header", "observed": hl(&inst), "signature": hl(sig), "expected": 0, "actual": got}));
                 }
             }
             // law 3 (weak form): an extra observed header never lowers the distance
@@ -382,6 +386,48 @@ fn check_http(r: &mut Report, thorough: bool) {
                         }
                     }
                 }
+            }
+        }
+        r
+    });
+    *r = std::mem::take(r).merge(rep);
+    // law 1 on longer lists of pairwise distinct names (what a p0f signature is): every header required / optional,
+    // with / without a value, every subset of the optional ones absent
+    let names = ["Date", "Server", "Last-Modified", "Accept-Ranges", "Content-Length", "Content-Type", "Keep-Alive", "Connection"];
+    let maxk = if thorough { 8 } else { 6 };
+    let mut sigs: Vec<Vec<Header>> = vec![];
+    for k in 1..=maxk {
+        for code in 0..4usize.pow(k as u32) {
+            sigs.push(
+                (0..k)
+                    .map(|i| {
+                        let m = code / 4usize.pow(i as u32) % 4;
+                        let h = if m & 2 != 0 { Header::new(names[i]).with_value("v") } else { Header::new(names[i]) };
+                        if m & 1 != 0 {
+                            h.optional()
+                        } else {
+                            h
+                        }
+                    })
+                    .collect(),
+            );
+        }
+    }
+    let rep = par_slices(sigs.len(), 64, |rg| {
+        let mut r = Report::new();
+        for si in rg {
+            let sig = &sigs[si];
+            let opt_idx: Vec<usize> = (0..sig.len()).filter(|&i| sig[i].optional).collect();
+            for m in 0u32..(1 << opt_idx.len()) {
+                let inst: Vec<Header> = (0..sig.len()).filter(|i| !sig[*i].optional || m & (1 << opt_idx.iter().position(|x| x == i).unwrap_or(0)) != 0).map(|i| Header { optional: false, ..sig[i].clone() }).collect();
+                let got = dh(&inst, sig);
+                r.exec(1);
+                r.outcome(&("hdr-long", got, sig.len()));
+                if got != Some(0) {
+                    r.dev("C12/http-header-instance-not-distance-0", "http-header-instance", || json!({"kind": "http-header", "observed": hl(&inst), "signature": hl(sig), "expected": 0, "actual": got}));
+                }
+                // an instance of a signature WITH values, observed with another value for one valued header, is not an instance:
+                // it must not come out closer than the instance itself (never negative / never None -> Some(0) inversions)
             }
         }
         r
